@@ -240,5 +240,5 @@ def cli_cases(draw):
 
 
 def subs(tier):
-    return [Sub("api", api_cases(), run_api, quick=480, thorough=3000, shrink_budget=60),
-            Sub("cli", cli_cases(), run_cli, quick=160, thorough=400, needs=("rel", "h5x", "shim"), shrink_budget=30)]
+    return [Sub("api", api_cases(), run_api, quick=480, thorough=20000, shrink_budget=60),
+            Sub("cli", cli_cases(), run_cli, quick=160, thorough=2000, needs=("rel", "h5x", "shim"), shrink_budget=30)]
